@@ -55,6 +55,8 @@ def main() -> None:
         tech = getattr(mod, "TECHNIQUE", TECHNIQUE.get(pid, "static analysis: repository-specific AST/CFG rules over /repo's source"))
         if any(r.__name__.startswith("rm_") for r in mod.RULES):
             tech += "; effect analysis of process-lifetime and pass-lifetime results (memoising decorators, module-level stores, mutable defaults, value memos) attributed by ownership"
+        if any(r.__name__.startswith("ru_") for r in mod.RULES):
+            tech += "; def-use check of locals and own attributes (read but never bound)"
         if pid == "C15":
             tech += "; exponential-ambiguity test of regex literals on their product automaton"
         checks.append({
